@@ -53,7 +53,7 @@ def data_format(fmt, **properties):
     return _FORMATS[key]
 
 
-def validated(field, text):
+def _validated_once(field, text):
     from cutplace import errors
     try:
         return ["accept", field.validated(text)]
@@ -61,6 +61,19 @@ def validated(field, text):
         return ["reject", str(error)]
     except Exception as error:  # noqa
         return ["crash", "%s: %s" % (type(error).__name__, error)]
+
+
+def validated(field, text):
+    """
+    The verdict of a field on a cell is a function of the cell: a field object serves every row of every data set read
+    with its CID, so the same cell is validated again (twice) and must get the same outcome each time.
+    """
+    first = _validated_once(field, text)
+    for _ in range(2):
+        again = _validated_once(field, text)
+        if again[0] != first[0] or (first[0] == "accept" and again[1] != first[1]):
+            return ["crash", "validating the same cell again gives %s %r after %s %r" % (again[0], again[1], first[0], first[1])]
+    return first
 
 
 def declare(cls_name, *args):
